@@ -6,6 +6,7 @@ import (
 
 	fpgo "github.com/TeaEntityLab/fpGo/v2"
 	"github.com/TeaEntityLab/fpGo/v2/zzverif/vsched"
+	"verifharness/lib"
 	"verifharness/lib/e1"
 )
 
@@ -261,6 +262,45 @@ func askMethodScenarioF(n int, byOptions, factory bool, bound int) *vsched.Scena
 // edgeScenario: (i) a timeout of zero or below: the ask itself may time out or be answered, and the actor
 // must serve the next request whichever happened; (ii) one Ask object used for several requests in a
 // row through AskChannel: every request is answered.
+// payloadReplies: the reply is opaque to Ask: every value of the payload table (nil, a typed nil pointer, an
+// error VALUE, zero values ...) comes back from AskOnceWithTimeout exactly, with a nil error, and from AskOnce.
+func payloadReplies(bound int) *vsched.Scenario {
+	fam := "payload-replies"
+	pay := lib.Payloads()
+	return &vsched.Scenario{
+		Name:     "ask/payload-replies",
+		Bound:    bound,
+		TimerDev: true,
+		Body: func() {
+			vsched.PoolRetain = 0
+			actor := fpgo.ActorNewGenerics(func(self *fpgo.ActorDef[interface{}], msg interface{}) {
+				a := msg.(*fpgo.AskDef[int, interface{}])
+				a.Reply(pay[a.Message])
+			})
+			vsched.GoNamed("asker", func() {
+				for i := range pay {
+					v, err := fpgo.AskNewGenerics[int, interface{}](i).AskOnceWithTimeout(actor, time.Hour)
+					vsched.Event("got", i, lib.Show(v), err == nil)
+					vsched.Event("got-once", i, lib.Show(fpgo.AskNewGenerics[int, interface{}](i).AskOnce(actor)))
+				}
+			})
+		},
+		Check: func(r *vsched.Result) []vsched.Failure {
+			fs := e1.Basic("C13", fam, r, nil)
+			if len(fs) > 0 {
+				return fs
+			}
+			for i, v := range pay {
+				if e1.Count(r, "got", i, lib.Show(v), true) != 1 || e1.Count(r, "got-once", i, lib.Show(v)) != 1 {
+					fs = append(fs, e1.Fail("C13|"+fam+"|wrong-answer", "the actor replied %s to request %d; AskOnceWithTimeout / AskOnce returned: %v", lib.Show(v), i, r.Events))
+					break
+				}
+			}
+			return fs
+		},
+	}
+}
+
 func edgeScenario(kind string, bound int) *vsched.Scenario {
 	fam := "edge-" + kind
 	return &vsched.Scenario{
@@ -352,6 +392,7 @@ func scenarios(tier string) []*vsched.Scenario {
 			}
 		}
 	}
+	out = append(out, payloadReplies(0))
 	out = append(out, edgeScenario("timeout-zero", b), edgeScenario("timeout-negative", b), edgeScenario("ask-object-reused", b))
 	out = append(out, askMethodScenario(2, false, b), askMethodScenario(2, true, b), askMethodScenarioF(2, false, true, b), askMethodScenarioF(2, true, true, b))
 	for _, pool := range []int{0, 1, 2} {
